@@ -109,6 +109,46 @@ pub broadcast proof fn lemma_prefix_trans(a: Seq<u8>, b: Seq<u8>, c: Seq<u8>)
 }
 pub broadcast group group_prefix { lemma_prefix_add, lemma_prefix_trans }
 
+
+// ---- u8 bit operations with constant masks / shifts, as arithmetic (each proved by(bit_vector)); opt-in per function (`@opt bits=1`):
+//      makes proofs about flag bytes independent of how the code spells a bit test (`x & m != 0`, `x & m == m`, `(x >> k) & 1 == 1`, ...)
+pub broadcast proof fn lemma_u8_and_1(x: u8) ensures #[trigger] (x & 1u8) == ((x / 1u8) % 2u8) * 1u8 { assert((x & 1u8) == ((x / 1u8) % 2u8) * 1u8) by (bit_vector); }
+pub broadcast proof fn lemma_u8_and_2(x: u8) ensures #[trigger] (x & 2u8) == ((x / 2u8) % 2u8) * 2u8 { assert((x & 2u8) == ((x / 2u8) % 2u8) * 2u8) by (bit_vector); }
+pub broadcast proof fn lemma_u8_and_4(x: u8) ensures #[trigger] (x & 4u8) == ((x / 4u8) % 2u8) * 4u8 { assert((x & 4u8) == ((x / 4u8) % 2u8) * 4u8) by (bit_vector); }
+pub broadcast proof fn lemma_u8_and_8(x: u8) ensures #[trigger] (x & 8u8) == ((x / 8u8) % 2u8) * 8u8 { assert((x & 8u8) == ((x / 8u8) % 2u8) * 8u8) by (bit_vector); }
+pub broadcast proof fn lemma_u8_and_16(x: u8) ensures #[trigger] (x & 16u8) == ((x / 16u8) % 2u8) * 16u8 { assert((x & 16u8) == ((x / 16u8) % 2u8) * 16u8) by (bit_vector); }
+pub broadcast proof fn lemma_u8_and_32(x: u8) ensures #[trigger] (x & 32u8) == ((x / 32u8) % 2u8) * 32u8 { assert((x & 32u8) == ((x / 32u8) % 2u8) * 32u8) by (bit_vector); }
+pub broadcast proof fn lemma_u8_and_64(x: u8) ensures #[trigger] (x & 64u8) == ((x / 64u8) % 2u8) * 64u8 { assert((x & 64u8) == ((x / 64u8) % 2u8) * 64u8) by (bit_vector); }
+pub broadcast proof fn lemma_u8_and_128(x: u8) ensures #[trigger] (x & 128u8) == ((x / 128u8) % 2u8) * 128u8 { assert((x & 128u8) == ((x / 128u8) % 2u8) * 128u8) by (bit_vector); }
+pub broadcast proof fn lemma_u8_and_3(x: u8) ensures #[trigger] (x & 3u8) == ((x / 1u8) % 4u8) * 1u8 { assert((x & 3u8) == ((x / 1u8) % 4u8) * 1u8) by (bit_vector); }
+pub broadcast proof fn lemma_u8_and_6(x: u8) ensures #[trigger] (x & 6u8) == ((x / 2u8) % 4u8) * 2u8 { assert((x & 6u8) == ((x / 2u8) % 4u8) * 2u8) by (bit_vector); }
+pub broadcast proof fn lemma_u8_and_12(x: u8) ensures #[trigger] (x & 12u8) == ((x / 4u8) % 4u8) * 4u8 { assert((x & 12u8) == ((x / 4u8) % 4u8) * 4u8) by (bit_vector); }
+pub broadcast proof fn lemma_u8_and_24(x: u8) ensures #[trigger] (x & 24u8) == ((x / 8u8) % 4u8) * 8u8 { assert((x & 24u8) == ((x / 8u8) % 4u8) * 8u8) by (bit_vector); }
+pub broadcast proof fn lemma_u8_and_48(x: u8) ensures #[trigger] (x & 48u8) == ((x / 16u8) % 4u8) * 16u8 { assert((x & 48u8) == ((x / 16u8) % 4u8) * 16u8) by (bit_vector); }
+pub broadcast proof fn lemma_u8_and_96(x: u8) ensures #[trigger] (x & 96u8) == ((x / 32u8) % 4u8) * 32u8 { assert((x & 96u8) == ((x / 32u8) % 4u8) * 32u8) by (bit_vector); }
+pub broadcast proof fn lemma_u8_and_192(x: u8) ensures #[trigger] (x & 192u8) == ((x / 64u8) % 4u8) * 64u8 { assert((x & 192u8) == ((x / 64u8) % 4u8) * 64u8) by (bit_vector); }
+pub broadcast proof fn lemma_u8_and_15(x: u8) ensures #[trigger] (x & 15u8) == ((x / 1u8) % 16u8) * 1u8 { assert((x & 15u8) == ((x / 1u8) % 16u8) * 1u8) by (bit_vector); }
+pub broadcast proof fn lemma_u8_and_240(x: u8) ensures #[trigger] (x & 240u8) == ((x / 16u8) % 16u8) * 16u8 { assert((x & 240u8) == ((x / 16u8) % 16u8) * 16u8) by (bit_vector); }
+pub broadcast proof fn lemma_u8_and_127(x: u8) ensures #[trigger] (x & 127u8) == ((x / 1u8) % 128u8) * 1u8 { assert((x & 127u8) == ((x / 1u8) % 128u8) * 1u8) by (bit_vector); }
+pub broadcast proof fn lemma_u8_and_7(x: u8) ensures #[trigger] (x & 7u8) == ((x / 1u8) % 8u8) * 1u8 { assert((x & 7u8) == ((x / 1u8) % 8u8) * 1u8) by (bit_vector); }
+pub broadcast proof fn lemma_u8_and_14(x: u8) ensures #[trigger] (x & 14u8) == ((x / 2u8) % 8u8) * 2u8 { assert((x & 14u8) == ((x / 2u8) % 8u8) * 2u8) by (bit_vector); }
+pub broadcast proof fn lemma_u8_shr_1(x: u8) ensures #[trigger] (x >> 1u8) == x / 2u8 { assert((x >> 1u8) == x / 2u8) by (bit_vector); }
+pub broadcast proof fn lemma_u8_shl_1(x: u8) ensures #[trigger] (x << 1u8) == ((x % 128u8) * 2u8) as u8 { assert((x << 1u8) == ((x % 128u8) * 2u8) as u8) by (bit_vector); }
+pub broadcast proof fn lemma_u8_shr_2(x: u8) ensures #[trigger] (x >> 2u8) == x / 4u8 { assert((x >> 2u8) == x / 4u8) by (bit_vector); }
+pub broadcast proof fn lemma_u8_shl_2(x: u8) ensures #[trigger] (x << 2u8) == ((x % 64u8) * 4u8) as u8 { assert((x << 2u8) == ((x % 64u8) * 4u8) as u8) by (bit_vector); }
+pub broadcast proof fn lemma_u8_shr_3(x: u8) ensures #[trigger] (x >> 3u8) == x / 8u8 { assert((x >> 3u8) == x / 8u8) by (bit_vector); }
+pub broadcast proof fn lemma_u8_shl_3(x: u8) ensures #[trigger] (x << 3u8) == ((x % 32u8) * 8u8) as u8 { assert((x << 3u8) == ((x % 32u8) * 8u8) as u8) by (bit_vector); }
+pub broadcast proof fn lemma_u8_shr_4(x: u8) ensures #[trigger] (x >> 4u8) == x / 16u8 { assert((x >> 4u8) == x / 16u8) by (bit_vector); }
+pub broadcast proof fn lemma_u8_shl_4(x: u8) ensures #[trigger] (x << 4u8) == ((x % 16u8) * 16u8) as u8 { assert((x << 4u8) == ((x % 16u8) * 16u8) as u8) by (bit_vector); }
+pub broadcast proof fn lemma_u8_shr_5(x: u8) ensures #[trigger] (x >> 5u8) == x / 32u8 { assert((x >> 5u8) == x / 32u8) by (bit_vector); }
+pub broadcast proof fn lemma_u8_shl_5(x: u8) ensures #[trigger] (x << 5u8) == ((x % 8u8) * 32u8) as u8 { assert((x << 5u8) == ((x % 8u8) * 32u8) as u8) by (bit_vector); }
+pub broadcast proof fn lemma_u8_shr_6(x: u8) ensures #[trigger] (x >> 6u8) == x / 64u8 { assert((x >> 6u8) == x / 64u8) by (bit_vector); }
+pub broadcast proof fn lemma_u8_shl_6(x: u8) ensures #[trigger] (x << 6u8) == ((x % 4u8) * 64u8) as u8 { assert((x << 6u8) == ((x % 4u8) * 64u8) as u8) by (bit_vector); }
+pub broadcast proof fn lemma_u8_shr_7(x: u8) ensures #[trigger] (x >> 7u8) == x / 128u8 { assert((x >> 7u8) == x / 128u8) by (bit_vector); }
+pub broadcast proof fn lemma_u8_shl_7(x: u8) ensures #[trigger] (x << 7u8) == ((x % 2u8) * 128u8) as u8 { assert((x << 7u8) == ((x % 2u8) * 128u8) as u8) by (bit_vector); }
+pub broadcast proof fn lemma_u8_or(x: u8, y: u8) ensures #[trigger] (x | y) == x + y - (x & y) { assert((x | y) == x + y - (x & y)) by (bit_vector); assert((x & y) <= x && (x & y) <= y) by (bit_vector); }
+pub broadcast group group_bits8 { lemma_u8_and_1, lemma_u8_and_2, lemma_u8_and_4, lemma_u8_and_8, lemma_u8_and_16, lemma_u8_and_32, lemma_u8_and_64, lemma_u8_and_128, lemma_u8_and_3, lemma_u8_and_6, lemma_u8_and_12, lemma_u8_and_24, lemma_u8_and_48, lemma_u8_and_96, lemma_u8_and_192, lemma_u8_and_15, lemma_u8_and_240, lemma_u8_and_127, lemma_u8_and_7, lemma_u8_and_14, lemma_u8_shr_1, lemma_u8_shl_1, lemma_u8_shr_2, lemma_u8_shl_2, lemma_u8_shr_3, lemma_u8_shl_3, lemma_u8_shr_4, lemma_u8_shl_4, lemma_u8_shr_5, lemma_u8_shl_5, lemma_u8_shr_6, lemma_u8_shl_6, lemma_u8_shr_7, lemma_u8_shl_7, lemma_u8_or }
+
 // Vec<u8> as a sink: never fails (std's impl Write for Vec<u8>)
 impl IoWrite for Vec<u8> {
     open spec fn written(&self) -> Seq<u8> { self@ }
